@@ -55,6 +55,8 @@ var props = map[string]propCfg{
 	"C10": {Level: "fault_enumeration", QuickRuns: 1200, QuickBud: 25 * time.Second, ThorRuns: 200000, ThorBud: 10 * time.Minute,
 		Rule:     "stage 1 enumerates completely: 4 provider configurations × 12 workloads × {no bystander, callback bystander, metadata bystander} × every storage call of the workload's trace × every fault kind the property names for that operation, singly and in all pairs (second fault anywhere in the trace as it unfolds after the first); stage 2 draws random fault schedules over random worlds with pgregory.net/rapid. A case is non-trivial when at least one fault fired or at least two tasks were interleaved; distinct = distinct (schedule signature × outcome signature), counted by hash",
 		Required: []string{"storage_err", "storage_nil_record", "storage_key_without_cert", "storage_cert_without_key", "storage_empty_cert", "alg_unusable", "bystander_during_fault", "recovery_request"}},
+	"C02": {Level: "exploration", QuickRuns: 1500, QuickBud: 22 * time.Second, ThorRuns: 200000, ThorBud: 10 * time.Minute,
+		Required: []string{"persisted_pair_checked", "sso_error_reply_target_checked", "callback_target_checked", "callback_after_reregistration", "logout_target_checked", "sp_reregistered", "tamper_field"}},
 	"C03": {Level: "exploration", QuickRuns: 1500, QuickBud: 22 * time.Second, ThorRuns: 200000, ThorBud: 10 * time.Minute,
 		Required: []string{"success_assertion_checked", "issueinstant_checked_at_exact_instant", "advance_while_parked", "key_rotated"}},
 	"C04": {Level: "exploration", QuickRuns: 1500, QuickBud: 22 * time.Second, ThorRuns: 200000, ThorBud: 10 * time.Minute,
@@ -65,6 +67,8 @@ var props = map[string]propCfg{
 		Required: []string{"sso_accepted", "nonconformant_rejected", "now_equals_notonorafter", "now_equals_notbefore", "sp_skew", "delay"}},
 	"C07": {Level: "exploration", QuickRuns: 1500, QuickBud: 22 * time.Second, ThorRuns: 200000, ThorBud: 10 * time.Minute,
 		Required: []string{"conformant_sso_accepted", "conformant_slo_accepted", "conformant_attrq_accepted"}},
+	"C11": {Level: "exploration", QuickRuns: 1500, QuickBud: 22 * time.Second, ThorRuns: 200000, ThorBud: 10 * time.Minute,
+		Required: []string{"metadata_checked", "certificate_endpoint_checked", "issuer_compared_with_entityid", "probe_sso", "probe_slo", "probe_attr", "want_signed_compared", "want_signed_advertised", "key_rotated"}},
 	"C12": {Level: "exploration", QuickRuns: 1500, QuickBud: 22 * time.Second, ThorRuns: 200000, ThorBud: 10 * time.Minute,
 		Required: []string{"attrq_answered", "attrq_refused", "attrq_filtered", "attrq_answered_with_advertised_destination", "key_rotated", "storage_err"}},
 	"C13": {Level: "exploration", QuickRuns: 1500, QuickBud: 22 * time.Second, ThorRuns: 200000, ThorBud: 10 * time.Minute,
